@@ -87,6 +87,12 @@ pub struct VCfg {
     #[serde(default)]
     #[garde(skip)]
     pub list: Vec<i64>,
+    /// read from a YAML key that has nothing in common with the Rust field name: a validation issue
+    /// on it cannot be mapped back to a YAML path
+    #[serde(default, rename = "zzz")]
+    #[garde(length(max = 3))]
+    #[validate(length(max = 3))]
+    pub title: String,
 }
 
 pub type MapT = BTreeMap<String, String>;
@@ -113,4 +119,80 @@ macro_rules! with_target {
             $crate::types::Target::Bool => $f::<bool>($($args),*),
         }
     };
+}
+
+
+/// Untyped tree that accepts every YAML document, complex mapping keys included (serde_json::Value
+/// insists on string keys). Used where every event of a document must be consumed.
+#[derive(Clone, Debug, PartialEq)]
+pub enum Tree {
+    Null,
+    Bool(bool),
+    I(i64),
+    U(u64),
+    F(u64),
+    S(String),
+    Seq(Vec<Tree>),
+    Map(Vec<(Tree, Tree)>),
+}
+
+impl<'de> Deserialize<'de> for Tree {
+    fn deserialize<D: serde::Deserializer<'de>>(d: D) -> Result<Self, D::Error> {
+        struct V;
+        impl<'de> serde::de::Visitor<'de> for V {
+            type Value = Tree;
+            fn expecting(&self, f: &mut std::fmt::Formatter) -> std::fmt::Result {
+                f.write_str("any YAML node")
+            }
+            fn visit_unit<E>(self) -> Result<Tree, E> {
+                Ok(Tree::Null)
+            }
+            fn visit_none<E>(self) -> Result<Tree, E> {
+                Ok(Tree::Null)
+            }
+            fn visit_some<D2: serde::Deserializer<'de>>(self, d: D2) -> Result<Tree, D2::Error> {
+                Tree::deserialize(d)
+            }
+            fn visit_bool<E>(self, v: bool) -> Result<Tree, E> {
+                Ok(Tree::Bool(v))
+            }
+            fn visit_i64<E>(self, v: i64) -> Result<Tree, E> {
+                Ok(Tree::I(v))
+            }
+            fn visit_u64<E>(self, v: u64) -> Result<Tree, E> {
+                Ok(Tree::U(v))
+            }
+            fn visit_f64<E>(self, v: f64) -> Result<Tree, E> {
+                Ok(Tree::F(v.to_bits()))
+            }
+            fn visit_str<E>(self, v: &str) -> Result<Tree, E> {
+                Ok(Tree::S(v.to_string()))
+            }
+            fn visit_string<E>(self, v: String) -> Result<Tree, E> {
+                Ok(Tree::S(v))
+            }
+            fn visit_bytes<E>(self, v: &[u8]) -> Result<Tree, E> {
+                Ok(Tree::S(String::from_utf8_lossy(v).into_owned()))
+            }
+            fn visit_seq<A: serde::de::SeqAccess<'de>>(self, mut a: A) -> Result<Tree, A::Error> {
+                let mut v = Vec::new();
+                while let Some(x) = a.next_element::<Tree>()? {
+                    v.push(x);
+                }
+                Ok(Tree::Seq(v))
+            }
+            fn visit_map<A: serde::de::MapAccess<'de>>(self, mut a: A) -> Result<Tree, A::Error> {
+                let mut v = Vec::new();
+                while let Some(k) = a.next_key::<Tree>()? {
+                    let x = a.next_value::<Tree>()?;
+                    v.push((k, x));
+                }
+                Ok(Tree::Map(v))
+            }
+            fn visit_newtype_struct<D2: serde::Deserializer<'de>>(self, d: D2) -> Result<Tree, D2::Error> {
+                Tree::deserialize(d)
+            }
+        }
+        d.deserialize_any(V)
+    }
 }
